@@ -40,7 +40,7 @@ theorem txPop_ignores_pending (s : State) (t : Tx) (p : List Rec) (b k : Bytes) 
   | panic => rfl
 
 /-- committed list `[a]` -/
-def s0 : State := (commit ({ opened := true } : State) [{ (mkRec [98] [107] [97] flagRPush dsList) with txid := 1 }]).1
+def s0 : State := (commit (openDB {} []).1 [{ (mkRec [98] [107] [97] flagRPush dsList) with txid := 1 }]).1
 
 /-- Witness of D-NO-RYW: two `LPop`s in one write transaction on the list `[a]` both return `a`
 (a serial execution would return `a` and then fail). -/
